@@ -51,6 +51,7 @@ fn main() {
         "bounds-props" => setf::bounds(rest),
         "card-props" => setf::card(rest),
         "card-mc" => setf::card_mc(rest),
+"coll-mc" => setf::coll_mc(rest),
         "exp01-cases" => exp01h::cases(rest),
         "exp01-law" => exp01h::law(rest),
         "sig-cases" => sigs::cases(rest),
